@@ -13,6 +13,7 @@ import (
 func init() {
 	register("C18", func(c *core.Ctx, tier string) {
 		packetAndCallbackPaired(c, "C18.10")
+		closeSerialisedWithFlush(c, "C18.12")
 		c18PacketCreate(c)
 		c18FlushSkeleton(c)
 		c18NoLateCallbacks(c)
